@@ -284,6 +284,11 @@ def module_work(name, mod, tier, rng, viols, cells, counters, samples, probe, ca
                         if blamed:
                             break
                     evals += 36
+                    if blamed is not None:
+                        alt = w[:blamed[1]] + blamed[2] + w[blamed[1] + 1:]
+                        oa = C.outcome(mod.validate, alt)
+                        if oa[0] == 'ok' and isinstance(oa[1], str) and len(oa[1]) != len(alt):
+                            blamed = None   # the accepted alternative is read as a number of another length class (other scheme)
                     if blamed is None:
                         counters['converse_confounded_by_other_checks'] += 1
                         continue
